@@ -126,3 +126,70 @@ def _h(name, fn, bounds, tier="quick", **kw):
 HARNESSES = [
     _h("c19_from_pest", h_from_pest, "input length 0..=12 (every length), location Pos / Span with symbolic offsets within the input, both error variants"),
 ]
+
+
+# ---- name-resolution diagnostics: the located node is the name reported ---------------------------
+
+def _ast(eng, ty_, hint="ast", **fields):
+    q, d = eng.tdef(ty_, "struct", hint=hint)
+    if d is None:
+        raise Unmodelled("no struct %s" % ty_)
+    return Agg(q, None, 0, [fields.get(f, Opaque("%s.%s" % (ty_, f))) for f in d[2]])
+
+
+def _span(eng, s, e):
+    q, d = eng.tdef("Span", "struct", hint="ast")
+    vals = dict(dummy=False, start=s, end=e)
+    return Agg(q, None, 0, [vals[f] for f in d[2]])
+
+
+def h_not_in_scope(ctx, tier, seed):
+    """the two sites that build a not-in-scope diagnostic (`Identifier::analyze`,
+    `VariantCaseConstructor::analyze`) executed on a node whose name does not resolve: the diagnostic
+    reports the identifier's text and carries the identifier's own span (the parser gives an
+    identifier the span of exactly its text), not the span of an enclosing node"""
+    eng = ctx.eng
+    site = eng.choose(2, "site")
+    n = 1 + eng.choose(3, "name length")
+    cs = [ctx.sym_int("c%d" % i, "u8") for i in range(n)]
+    for c in cs:
+        eng.assume(z3.And(z3.UGE(c, 65), z3.ULE(c, 122)))
+    s_ = ctx.sym_int("name.start", "usize")
+    eng.assume(z3.ULT(s_, 1 << 32))
+    name_span = _span(eng, s_, s_ + n)
+    idt = _ast(eng, "Identifier", value=StrM(list(cs), True), span=name_span, symbol=none())
+    if site == 0:
+        node = ref_to_value(idt)
+        f = eng.find(trait="Analyzable", self_ty="Identifier", method="analyze")
+    else:
+        # the enclosing constructor spans more text than the name: `::Name { .. }`
+        os_ = ctx.sym_int("ctor.start", "usize"); oe_ = ctx.sym_int("ctor.end", "usize")
+        eng.assume(z3.And(z3.ULE(os_, s_), z3.UGE(oe_, s_ + n), z3.ULT(oe_, 1 << 33), z3.Or(os_ != s_, oe_ != s_ + n)))
+        node = ref_to_value(_ast(eng, "VariantCaseConstructor", name=idt, fields=VecM([]), spread=none(), span=_span(eng, os_, oe_), scope=none()))
+        f = eng.find(trait="Analyzable", self_ty="VariantCaseConstructor", method="analyze")
+    try:
+        rep = models.deref(eng.call_fn(f, [node, none()]))
+    except Panic as p:
+        eng.stats.panic_paths += 1
+        ctx.violation("analyze panicked: %s" % p.kind, site=p.site)
+        return
+    errs = models.deref(rep.fields[0]).items
+    ctx.require(len(errs) >= 1, "an unresolved name is reported", shape="unresolved name not reported")
+    found = False
+    for e in errs:
+        e = models.deref(e)
+        if e.variant != "NotInScope":
+            continue
+        found = True
+        inner = models.deref(e.fields[0])
+        q, d = eng.tdef("NotInScopeError", "struct")
+        nm = models.deref(inner.fields[d[2].index("name")])
+        sp = models.deref(inner.fields[d[2].index("span")])
+        sq, sd = eng.tdef("Span", "struct", hint="ast")
+        st, en = sp.fields[sd[2].index("start")], sp.fields[sd[2].index("end")]
+        ctx.require(len(nm.bytes) == n and z3b(b_and(*[eng.to_bv(a, 8) == b for a, b in zip(nm.bytes, cs)])), "the diagnostic reports the name that does not resolve", shape="not-in-scope diagnostic reports another name")
+        ctx.require(z3.And(eng.to_bv(st, 64) == s_, eng.to_bv(en, 64) == s_ + n), "the diagnostic is located at the name itself (span = the identifier's span, whose text is the name)", shape="not-in-scope diagnostic located at another node than the name")
+    ctx.require(found, "the report is a not-in-scope diagnostic", shape="unresolved name reported as something else")
+
+
+HARNESSES.append(_h("c19_not_in_scope", h_not_in_scope, "Identifier / VariantCaseConstructor with an unresolvable name of 1..3 characters; spans symbolic"))
